@@ -56,6 +56,8 @@ type shim struct {
 	// with (kinds "extfld", "ext", "extstmt", "primary"): fields passed read-only after flds (for "primary": fields of the
 	// OTHER object handed to the intrinsic that makes the new primary object)
 	with []string
+	// xargs (text-keyed calls, whose own arguments are part of the key): Go expressions evaluated and passed
+	xargs []string
 	// trace (kind "extstmt"): name of a mapped pseudo-field; before the call, the tuple of the call's arguments
 	// (receiver first) is appended to it — a record of what the callee was handed
 	trace string
@@ -86,6 +88,13 @@ type transFunc struct {
 	otherAs *fieldSpec
 	// a pointer PARAMETER that is the object of the field environment (plain functions such as putJSONEncoder(enc))
 	objParam string
+	// zero values of opaque named types (GoMini literals), for `T{}` fields the literal omits
+	zeros map[string]string
+	// opaque named types whose values Go compares with == / != (structural equality of the GoMini values)
+	comparable []string
+	// `append` to a slice field of the receiver (or of a struct copy of it) is REFUSED: in Go it may write into a backing
+	// array shared with other objects, which value slices cannot express; such code must use the clone idiom (make + copy)
+	noFieldAppend bool
 }
 
 // tailSpec: from the first top-level statement whose source text is `from` on, the body is replaced by
@@ -135,6 +144,7 @@ type xl struct {
 	file        *ast.File // the parsed source file (package-level constants and struct declarations are read from it)
 	recvVar     string
 	otherVar    string // the second object (fields through fn.other)
+	fresh       map[string]bool // locals (lean names) holding a slice this function made itself (x := make(…)): no aliasing
 	scopes      []map[string]tvar
 	consts      map[string]constant.Value // local const declarations
 	nloc        int
@@ -592,6 +602,12 @@ func (x *xl) expr(e ast.Expr) tx {
 		}
 		x.fail(e, "selector %s is neither a mapped receiver field nor a declared constant", exprString(e))
 	case *ast.UnaryExpr:
+		if t.Op == token.AND { // &v where v is the second object: the object value itself
+			if id, ok := t.X.(*ast.Ident); ok && id.Name == x.otherVar && x.otherVar != "" && x.fn.otherAs != nil {
+				f := x.fn.otherAs
+				return tx{lean: "(.fld " + leanStr(f.lean) + ")", typ: f.typ}
+			}
+		}
 		a := x.expr(t.X)
 		switch t.Op {
 		case token.NOT:
@@ -694,6 +710,9 @@ func (x *xl) expr(e ast.Expr) tx {
 				continue
 			}
 			z, ok := zeroOf(f.typ)
+			if !ok {
+				z, ok = x.fn.zeros[f.typ]
+			}
 			if !ok {
 				x.fail(e, "no zero value for field %s of %s", f.lean, typ)
 			}
@@ -847,6 +866,11 @@ func (x *xl) binary(t *ast.BinaryExpr) tx {
 		okT := isInt(a.typ)
 		if t.Op == token.EQL || t.Op == token.NEQ {
 			okT = okT || a.typ == "bool" || a.typ == "string" || strings.HasPrefix(a.typ, "opt:")
+			if a.typ == b.typ {
+				for _, ct := range x.fn.comparable {
+					okT = okT || a.typ == ct
+				}
+			}
 		}
 		if !okT {
 			x.fail(t, "%s applied to %s", t.Op, a.typ)
@@ -1284,6 +1308,13 @@ func (x *xl) withArgs(c *ast.CallExpr, sh shim, key string) []string {
 		}
 		out = append(out, "(.fld "+leanStr(fs.lean)+")")
 	}
+	for _, src := range sh.xargs {
+		e, err := parser.ParseExpr(src)
+		if err != nil {
+			x.fail(c, "shim %s: bad xargs expression %q", key, src)
+		}
+		out = append(out, x.defaulted(c, x.expr(e)).lean)
+	}
 	return out
 }
 
@@ -1371,6 +1402,8 @@ func (x *xl) conversion(c *ast.CallExpr, to string) tx {
 		if a.typ == "string" || a.typ == "bytes" {
 			return tx{lean: a.lean, typ: to} // same bytes; no aliasing is observable in the subset
 		}
+	case a.typ == to:
+		return a // a named type over the same representation (groupObject(attrs)): the value itself
 	}
 	x.fail(c, "conversion of %s to %s is outside the subset", a.typ, to)
 	return tx{}
@@ -1382,6 +1415,13 @@ func (x *xl) appendCall(c *ast.CallExpr) tx {
 		x.fail(c, "append with %d arguments is outside the subset", len(c.Args))
 	}
 	s := x.expr(c.Args[0])
+	if x.fn.noFieldAppend {
+		if sel, ok := c.Args[0].(*ast.SelectorExpr); ok {
+			if id, ok := sel.X.(*ast.Ident); ok && (id.Name == x.recvVar || id.Name == x.otherVar) {
+				x.fail(c, "append to %s: a slice field of the receiver (or of a struct copy of it) may share its backing array with other objects; use make + copy", exprString(c.Args[0]))
+			}
+		}
+	}
 	if c.Ellipsis != token.NoPos {
 		t := x.defaulted(c.Args[1], x.expr(c.Args[1]))
 		okT := t.typ == s.typ || (s.typ == "bytes" && t.typ == "string")
@@ -1810,6 +1850,75 @@ func (x *xl) assign(t *ast.AssignStmt) string {
 		}
 		return "(.assign [" + lv + "] [" + v.lean + "])"
 	}
+	if len(t.Lhs) == 1 && len(t.Rhs) == 1 {
+		// `cloned := *h`: a struct copy of the receiver into the SECOND object: every field the `other` map shares with
+		// `fields` (by Go name) is copied.  Slice fields are copied as values (in Go: the header — they SHARE a backing array)
+		if st, ok := t.Rhs[0].(*ast.StarExpr); ok && t.Tok == token.DEFINE {
+			if rid, ok := st.X.(*ast.Ident); ok && rid.Name == x.recvVar && x.recvVar != "" && x.fn.other != nil && x.otherVar == "" {
+				id, isId := t.Lhs[0].(*ast.Ident)
+				if !isId || x.depth != 1 {
+					x.fail(t, "struct copy of the receiver: only `v := *recv` at the top level")
+				}
+				x.otherVar = id.Name
+				x.legend = append(x.legend, id.Name+" = the SECOND object, a struct copy of the receiver")
+				var names []string
+				for n := range x.fn.other {
+					if _, ok := x.fn.fields[n]; ok {
+						names = append(names, n)
+					}
+				}
+				sort.Strings(names)
+				var parts []string
+				for _, n := range names {
+					parts = append(parts, "(.assign [(.fld "+leanStr(x.fn.other[n].lean)+")] [(.fld "+leanStr(x.fn.fields[n].lean)+")])")
+				}
+				return block(parts)
+			}
+		}
+		if t.Tok == token.ASSIGN {
+			// `x.f = v` on a local of a declared struct type: the record with that field replaced
+			if sel, ok := t.Lhs[0].(*ast.SelectorExpr); ok {
+				if id, ok := sel.X.(*ast.Ident); ok {
+					if v, ok := x.lookup(id.Name); ok && (strings.HasPrefix(v.typ, "struct:") || strings.HasPrefix(v.typ, "ptr:struct:")) {
+						decl := x.fn.structs[v.typ[strings.Index(v.typ, "struct:")+7:]]
+						var parts []string
+						found := false
+						for i, f := range decl {
+							if f.lean == sel.Sel.Name {
+								found = true
+								pre := x.hoist(t.Rhs[0], true)
+								if len(pre) != 0 {
+									x.fail(t, "statement-level call on the right of a struct field assignment")
+								}
+								parts = append(parts, x.coerce(t.Rhs[0], x.expr(t.Rhs[0]), f.typ).lean)
+							} else {
+								parts = append(parts, fmt.Sprintf("(.index (.loc %s) (.lit (.int %d)))", leanStr(v.lean), i))
+							}
+						}
+						if !found {
+							x.fail(t, "field %s of %s is not declared in the whitelist entry", sel.Sel.Name, v.typ)
+						}
+						return "(.assign [(.loc " + leanStr(v.lean) + ")] [(.call \"tuple\" [" + strings.Join(parts, ", ") + "])])"
+					}
+				}
+			}
+			// `x[i] = v` on a local slice this function made itself: the entry's intrinsic "slice.set"
+			if ix, ok := t.Lhs[0].(*ast.IndexExpr); ok {
+				if id, ok := ix.X.(*ast.Ident); ok {
+					if v, ok := x.lookup(id.Name); ok && x.fresh[v.lean] && strings.HasPrefix(v.typ, "[]") {
+						sh, has := x.fn.calls["slice.set"]
+						if !has || sh.kind != "ext" {
+							x.fail(t, "element assignment needs a shim \"slice.set\" of kind ext")
+						}
+						i := x.asIndex(ix.Index, x.expr(ix.Index))
+						val := x.coerce(t.Rhs[0], x.expr(t.Rhs[0]), v.typ[2:])
+						return "(.assign [(.loc " + leanStr(v.lean) + ")] [(.call " + leanStr(sh.f) + " [(.loc " + leanStr(v.lean) + "), " + i.lean + ", " + val.lean + "])])"
+					}
+					x.fail(t, "element assignment %s: only on a local slice made by this function (x := make(…))", exprString(t.Lhs[0]))
+				}
+			}
+		}
+	}
 	// `v := pool.Get()` with a shim of kind "object": in a plain function v IS the object whose fields the entry maps
 	// (the field environment at entry describes what Get returns); in a METHOD v is the SECOND object (fields through
 	// `other`).  `v := recv.f()` with kind "objectfun": the translated function f is called and v is the second object
@@ -1959,7 +2068,26 @@ func (x *xl) assign(t *ast.AssignStmt) string {
 	for _, r := range t.Rhs {
 		vs = append(vs, x.expr(r))
 	}
-	return x.assignValues(t, vs)
+	out := x.assignValues(t, vs)
+	if t.Tok == token.DEFINE {
+		for i, r := range t.Rhs {
+			c, ok := r.(*ast.CallExpr)
+			if !ok {
+				continue
+			}
+			if fid, ok := c.Fun.(*ast.Ident); ok && fid.Name == "make" {
+				if id, ok := t.Lhs[i].(*ast.Ident); ok {
+					if v, ok := x.lookup(id.Name); ok {
+						if x.fresh == nil {
+							x.fresh = map[string]bool{}
+						}
+						x.fresh[v.lean] = true
+					}
+				}
+			}
+		}
+	}
+	return out
 }
 
 // targets resolves (declaring, for :=) the left-hand sides given the static types of the values.
@@ -2014,6 +2142,22 @@ func (x *xl) assignValues(t *ast.AssignStmt, vs []tx) string {
 	var rs []string
 	for i := range vs {
 		rs = append(rs, x.coerce(t.Rhs[i], vs[i], typs[i]).lean)
+	}
+	if t.Tok == token.DEFINE { // x := make(…): x holds a slice of this function's own
+		for i, r := range t.Rhs {
+			if c, ok := r.(*ast.CallExpr); ok {
+				if fid, ok := c.Fun.(*ast.Ident); ok && fid.Name == "make" {
+					if id, ok := t.Lhs[i].(*ast.Ident); ok {
+						if v, ok := x.lookup(id.Name); ok {
+							if x.fresh == nil {
+								x.fresh = map[string]bool{}
+							}
+							x.fresh[v.lean] = true
+						}
+					}
+				}
+			}
+		}
 	}
 	return "(.assign [" + strings.Join(lvs, ", ") + "] [" + strings.Join(rs, ", ") + "])"
 }
@@ -2243,10 +2387,14 @@ func (x *xl) switchStmt(t *ast.SwitchStmt) string {
 	if t.Init != nil {
 		pre = append(pre, x.stmt(t.Init))
 	}
+	var tag tx
 	if t.Tag == nil {
-		x.fail(t, "switch without a tag is outside the subset")
+		// `switch { case c1: … }`: the first case whose condition holds — a switch on `true` (conditions are evaluated
+		// in source order, one at a time)
+		tag = tx{lean: "(.lit (.bool true))", typ: "bool"}
+	} else {
+		tag = x.defaulted(t.Tag, x.expr(t.Tag))
 	}
-	tag := x.defaulted(t.Tag, x.expr(t.Tag))
 	if !(isInt(tag.typ) || tag.typ == "bool" || tag.typ == "string") {
 		x.fail(t, "switch on %s", tag.typ)
 	}
